@@ -111,9 +111,9 @@ def sym_ite(c, a, b):
 
 
 class SymInt:
-    __slots__ = ('t',)
+    __slots__ = ('t', 'inv')
 
-    def __init__(self, t): self.t = t
+    def __init__(self, t): self.t = t; self.inv = None
 
     def __eq__(self, o):
         t = it(o)
@@ -209,7 +209,9 @@ class SymInt:
     __rand__ = __and__
     def __or__(self, o): return _bitop(self, o, 'or')
     __ror__ = __or__
-    def __invert__(self): return mkint(T.isub(-1, self.t))
+    def __invert__(self):
+        r = SymInt(T.isub(-1, self.t)); r.inv = self      # remembered so that  x & ~y  can be computed as  x - (x & y)
+        return r
     def __bool__(self): return branch(T.bnot(T.ieq(self.t, 0)))
     def __hash__(self): return hash(concretize_int(self))      # forks over the feasible values (small domains only)
     def __index__(self): return concretize_int(self)
@@ -246,6 +248,10 @@ def _bitop(a, b, op):
     if isinstance(tb, SymBool): tb = mkint(it(tb))
     if not isinstance(ta, (int, SymInt)) or not isinstance(tb, (int, SymInt)):
         return NotImplemented
+    if op == 'and':
+        for x, y in ((ta, tb), (tb, ta)):
+            if isinstance(x, SymInt) and getattr(x, 'inv', None) is not None:
+                return y - _bitop(y, x.inv, 'and')
     for x in (ta, tb):
         if isinstance(x, int):
             if x < 0:
